@@ -1,5 +1,7 @@
 import Driver.Common
 import OrdModel.Num.Pile
+import OrdModel.Text.Outgoing
+import OrdModel.Text.Query
 /- Line handlers for the text engine (`eng_text`): decimal amounts, pile printing, and the
 text parsers of work stream "text".  `none` = not one of ours. -/
 namespace Driver.Text
@@ -90,7 +92,179 @@ def handleDecimal : List String → Option String
     | none => some "bad-op"
   | _ => none
 
+/-! ### the other text parsers -/
+
+def spStr (v : SatPoint.Val) : String := s!"{String.ofList v.txid}:{v.vout}:{v.offset}"
+def iidStr (v : InscriptionId.Val) : String := s!"{String.ofList v.txid}i{v.index}"
+
+def outStr : Outgoing.Val → String
+  | .amountDelegated => "amount"
+  | .inscriptionId v => s!"inscription {iidStr v}"
+  | .rune v sc r sp => s!"rune {v} {sc} {r} {sp}"
+  | .sat n => s!"sat {n}"
+  | .satPoint v => s!"satpoint {spStr v}"
+
+def qbStr : Query.Block → String
+  | .height h => s!"height {h}"
+  | .hash h => s!"hash {String.ofList h}"
+
+def qiStr : Query.Inscription → String
+  | .id v => s!"id {iidStr v}"
+  | .number n => s!"number {n}"
+  | .sat n => s!"sat {n}"
+
+def qrStr : Query.Rune → String
+  | .spaced r sp => s!"spaced {r} {sp}"
+  | .id b t => s!"id {b} {t}"
+  | .number n => s!"number {n}"
+
+def rangesStr (f : Char → Bool) : String := Id.run do
+  -- maximal runs of code points (surrogates skipped, as `char::from_u32` does) on which `f` holds
+  let mut out : Array String := #[]
+  let mut start : Option Nat := none
+  let mut last : Nat := 0
+  for cp in [0:0x110000] do
+    if 0xD800 ≤ cp ∧ cp ≤ 0xDFFF then continue
+    if f (Char.ofNat cp) then
+      match start with
+      | some _ =>
+        if last + 1 == cp then last := cp
+        else
+          out := out.push s!"{start.get!}-{last}"
+          start := some cp; last := cp
+      | none => start := some cp; last := cp
+  match start with
+  | some st => out := out.push s!"{st}-{last}"
+  | none => pure ()
+  return ",".intercalate out.toList
+
+def parseSp (t : String) : Option SatPoint.Val :=
+  match t.splitOn ":" with
+  | [tx, v, o] => do some ⟨tx.toList, ← v.toNat?, ← o.toNat?⟩
+  | _ => none
+
+def parseIid (t : String) : Option InscriptionId.Val :=
+  match t.splitOn "i" with
+  | [tx, ix] => do some ⟨tx.toList, ← ix.toNat?⟩
+  | _ => none
+
+/-- independent semantics of a sat name: bijective base 26, `SUPPLY − value` -/
+def satNameCheck (s : List Char) (n : Nat) : Bool :=
+  1 ≤ s.length && s.all Regex.isLower &&
+  (let v := s.foldl (fun a c => a * 26 + (c.toNat - 96)) 0
+   decide (v ≤ Sub.SUPPLY) && n == Sub.SUPPLY - v)
+
+/-- independent semantics of a spaced rune: letters in bijective base 26 minus one; spacer bit
+`k` set iff a spacer follows letter `k`; no leading / trailing / doubled spacer -/
+def spacedRuneCheck (s : List Char) (r sp : Nat) : Bool :=
+  let letters := s.filter Sub.isUpper
+  let okChars := s.all (fun c => Sub.isUpper c || c == '.' || c == '•')
+  let v := letters.foldl (fun a c => a * 26 + (c.toNat - 64)) 0
+  -- positions: walk the string, collecting `lettersBefore - 1` for each spacer
+  let (bits, _, good) := s.foldl (fun (st : List Nat × Nat × Bool) c =>
+      let (bits, n, good) := st
+      if Sub.isUpper c then (bits, n + 1, good)
+      else if n = 0 ∨ bits.contains (n - 1) then (bits, n, false)
+      else ((n - 1) :: bits, n, good)) ([], 0, true)
+  okChars && good && letters ≠ [] && !bits.contains (letters.length - 1) &&
+  r + 1 == v && r < 2 ^ 128 && sp == bits.foldl (fun a k => a + 2 ^ k) 0
+
+def intTok (t : String) : Option Int :=
+  if t.startsWith "-" then (t.drop 1).toNat?.map (fun n => - Int.ofNat n) else t.toNat?.map Int.ofNat
+
+def oracleParsers : List String → Option String
+  | ["c31.oracle.sp", h, res] =>
+    match textArg h, res.splitOn "|" with
+    | some s, ["ok", v] => match parseSp v with
+      | some v => some (toString (SatPoint.check s v))
+      | none => some "bad-op"
+    | some _, "err" :: _ => some "true"
+    | some _, _ => some "false"
+    | none, _ => some "bad-op"
+  | ["c31.oracle.iid", h, res] =>
+    match textArg h, res.splitOn "|" with
+    | some s, ["ok", v] => match parseIid v with
+      | some v => some (toString (InscriptionId.check s v))
+      | none => some "bad-op"
+    | some _, "err" :: _ => some "true"
+    | some _, _ => some "false"
+    | none, _ => some "bad-op"
+  | ["c31.oracle.out", h, res] =>
+    match textArg h, res.splitOn "|" with
+    | some s, ["ok", "sat", n] => some (toString (match n.toNat? with | some n => satNameCheck s n | none => false))
+    | some s, ["ok", "satpoint", v] => some (toString (match parseSp v with | some v => SatPoint.check s v | none => false))
+    | some s, ["ok", "inscription", v] => some (toString (match parseIid v with | some v => InscriptionId.check s v | none => false))
+    | some s, ["ok", "rune", v, sc, r, sp] =>
+      match v.toNat?, sc.toNat?, r.toNat?, sp.toNat? with
+      | some v, some sc, some r, some sp =>
+        -- `NUMBER ws* : ws* NAME`
+        match splitOnce ':' s with
+        | some (a, b) =>
+          let num := (a.reverse.dropWhile Regex.isUSpace).reverse
+          let name := b.dropWhile Regex.isUSpace
+          some (toString (Decimal.accepts num v sc && spacedRuneCheck name r sp))
+        | none => some "false"
+      | _, _, _, _ => some "bad-op"
+    | some _, ["delegated", "amount"] => some "true"
+    | some _, "err" :: _ => some "true"
+    | some _, _ => some "false"
+    | none, _ => some "bad-op"
+  | ["c31.oracle.qb", h, res] =>
+    match textArg h, res.splitOn "|" with
+    | some s, ["ok", "height", n] =>
+      some (toString (match n.toNat? with
+        | some n => numeralVal? s == some n && n < 2 ^ 32 && utf8Len s != 64
+        | none => false))
+    | some s, ["ok", "hash", v] =>
+      some (toString (s.length == 64 && s.all isHexDigit && v.toList == s.map toLowerAscii))
+    | some _, "err" :: _ => some "true"
+    | some _, _ => some "false"
+    | none, _ => some "bad-op"
+  | ["c31.oracle.qi", h, res] =>
+    match textArg h, res.splitOn "|" with
+    | some s, ["ok", "id", v] => some (toString (match parseIid v with | some v => InscriptionId.check s v | none => false))
+    | some s, ["ok", "number", n] =>
+      some (toString (match intTok n with
+        | some n => signedNumeralVal? s == some n && decide (-(2:Int) ^ 31 ≤ n) && decide (n < (2:Int) ^ 31)
+        | none => false))
+    | some s, ["ok", "sat", n] => some (toString (match n.toNat? with | some n => satNameCheck s n | none => false))
+    | some _, "err" :: _ => some "true"
+    | some _, _ => some "false"
+    | none, _ => some "bad-op"
+  | ["c31.oracle.qr", h, res] =>
+    match textArg h, res.splitOn "|" with
+    | some s, ["ok", "id", b, t] =>
+      match b.toNat?, t.toNat?, splitOnce ':' s with
+      | some b, some t, some (bs, ts) =>
+        some (toString (numeralVal? bs == some b && numeralVal? ts == some t && b < 2 ^ 64 && t < 2 ^ 32))
+      | _, _, _ => some "false"
+    | some s, ["ok", "number", n] =>
+      some (toString (match n.toNat? with | some n => numeralVal? s == some n && n < 2 ^ 64 | none => false))
+    | some s, ["ok", "spaced", r, sp] =>
+      some (toString (match r.toNat?, sp.toNat? with | some r, some sp => spacedRuneCheck s r sp | _, _ => false))
+    | some _, "err" :: _ => some "true"
+    | some _, _ => some "false"
+    | none, _ => some "bad-op"
+  | _ => none
+
+def handleParsers : List String → Option String
+  | ["sp.parse", h] => (textArg h).map (fun s => renderOutcome spStr (SatPoint.parse s))
+  | ["iid.parse", h] => (textArg h).map (fun s => renderOutcome iidStr (InscriptionId.parse s))
+  | ["out.parse", h] =>
+    (textArg h).map (fun s =>
+      match Outgoing.parse s with
+      | .ok .amountDelegated => "delegated amount"
+      | r => renderOutcome outStr r)
+  | ["qb.parse", h] => (textArg h).map (fun s => renderOutcome qbStr (Query.parseBlock s))
+  | ["qi.parse", h] => (textArg h).map (fun s => renderOutcome qiStr (Query.parseInscription s))
+  | ["qr.parse", h] => (textArg h).map (fun s => renderOutcome qrStr (Query.parseRune s))
+  | ["re.table.digit"] => some (rangesStr Regex.isUDigit)
+  | ["re.table.space"] => some (rangesStr Regex.isUSpace)
+  | ts => oracleParsers ts
+
 def handle (ts : List String) : Option String :=
-  handleDecimal ts
+  match handleDecimal ts with
+  | some r => some r
+  | none => handleParsers ts
 
 end Driver.Text
